@@ -144,3 +144,36 @@ Example ex_bad_events :
    EErr (Conversion (b "1x") 7 ([c_tab] ++ b "egg 1x"));
    node ZNum (b "day") [(b "tea", 2%Z)] (Some [([], b "n")])].
 Proof. vm_compute. reflexivity. Qed.
+
+(** ** why the well-formedness conditions are there (each is needed) *)
+
+(** [wf_mid] asks for a blank between name and value.  docs/syntax.ebnf makes
+    the white space after the colon optional ("Item = Indentation {…}
+    ValueSeparator [ WhiteSpace ] Quantity"), but the parser splits at the last
+    blank only: "apple:150" is reported as bad syntax *)
+Example need_blank_before_value :
+  events ZNum (b "day" ++ [c_lf] ++ b " apple:150" ++ [c_lf]) =
+  [EErr (BadSyntax 2 (b " apple:150")); node ZNum (b "day") [] None].
+Proof. vm_compute. reflexivity. Qed.
+
+(** with a blank inside the name the split even lands inside the line *)
+Example need_blank_before_value2 :
+  events ZNum (b "day" ++ [c_lf] ++ b " red apple:150" ++ [c_lf]) =
+  [EErr (Conversion (b "apple:150") 2 (b " red apple:150")); node ZNum (b "day") [] None].
+Proof. vm_compute. reflexivity. Qed.
+
+(** [wf_name]: a name must not begin or end with a trimmed character – a
+    trailing dash or quote is silently lost, a heading that begins with a dash
+    is taken for an entry line *)
+Example name_loses_trailing_dash :
+  events ZNum (b "day" ++ [c_lf] ++ b " omega-: 1" ++ [c_lf]) = [node ZNum (b "day") [(b "omega", 1%Z)] None].
+Proof. vm_compute. reflexivity. Qed.
+
+Example dash_heading_is_no_heading :
+  events ZNum (b "-day" ++ [c_lf] ++ b " tea 1" ++ [c_lf]) = [].
+Proof. vm_compute. reflexivity. Qed.
+
+(** a lone CR is not a line ending for the parser (the grammar lists it as NewLine) *)
+Example lone_cr_is_no_newline :
+  events ZNum (b "day" ++ [c_cr] ++ b " tea 1" ++ [c_lf]) = [node ZNum (b "day" ++ [c_cr] ++ b " tea 1") [] None].
+Proof. vm_compute. reflexivity. Qed.
